@@ -21,6 +21,7 @@ UNITS["tree_lemmas"] = {
     "prelude": _p("prelude/core.rs"),
     "spec": _p("spec/blake3_spec.rs", "spec/tree_spec.rs"),
     "overlays": [],
+    "verify": "spec",
     "doc": "lemmas of the tree-level specification (no repo code): lp2, pairwise, split, covers",
 }
 
@@ -29,6 +30,7 @@ UNITS["tree"] = {
     "prelude": _p("prelude/core.rs", "prelude/deps.rs", "prelude/kernels.rs"),
     "spec": _p("spec/blake3_spec.rs", "spec/tree_spec.rs"),
     "overlays": _p("contracts/compress.vc", "contracts/chunk.vc", "contracts/tree.vc"),
+    "verify": "code",
     "doc": "tree hashing: compress_chunks/parents_parallel, compress_subtree_wide, hash_all_at_once, hash/keyed_hash/derive_key",
 }
 
@@ -37,5 +39,16 @@ UNITS["stack_lemmas"] = {
     "prelude": _p("prelude/core.rs"),
     "spec": _p("spec/blake3_spec.rs", "spec/tree_spec.rs", "spec/stack_spec.rs"),
     "overlays": [],
+    "verify": "spec",
     "doc": "lemmas about the incremental hasher's CV stack (no repo code)",
+}
+
+UNITS["hasher"] = {
+    "files": CRATE_FILES,
+    "prelude": _p("prelude/core.rs", "prelude/deps.rs", "prelude/kernels.rs"),
+    "spec": _p("spec/blake3_spec.rs", "spec/tree_spec.rs", "spec/stack_spec.rs"),
+    "assumed_overlays": _p("contracts/compress.vc", "contracts/chunk.vc", "contracts/tree.vc"),
+    "overlays": _p("contracts/hasher.vc"),
+    "verify": "code",
+    "doc": "incremental Hasher (update/finalize/reset/count), hazmat extension, against the tree spec",
 }
